@@ -4,6 +4,7 @@ import ast
 from ..loader import walk_no_nested, norm, is_self_attr, ClassInfo
 from ..effects import root, is_fresh, show, path_fields
 from .. import q
+from ..cfg import guarded_by
 from .c05 import scratch_rule, restored_on_all_exits
 
 
@@ -143,22 +144,7 @@ def run(ctx):
 
     # ---------------------------------------------------------------- R4
     r = ctx.rule("C17-R4", "CACHEKEY", "the key of a class-level memo covers every input of the memoised value", reference=1)
-    n_memo = 0
-    for ci in p.classes.values():
-        for slot, val in ci.attrs.items():
-            if not isinstance(val, (ast.Dict,)) or val.keys:
-                continue
-            for m in ci.methods.values():
-                for n in walk_no_nested(m.node):
-                    if isinstance(n, ast.Assign) and len(n.targets) == 1 and isinstance(n.targets[0], ast.Subscript):
-                        tg = n.targets[0]
-                        if isinstance(tg.value, ast.Attribute) and tg.value.attr == slot and isinstance(tg.value.value, ast.Name) \
-                                and tg.value.value.id in ("self", "cls", ci.name):
-                            n_memo += 1
-                            _cachekey(ctx, r, m, n, tg)
-    if n_memo == 0:
-        r.vacuous_ok = True
-        r.note("no class-level memo dictionaries are filled any more")
+    memo_key_rule(ctx, r)
 
     # ---------------------------------------------------------------- R5
     r = ctx.rule("C17-R5", "READONLY", "render() of every Component leaves the component's own state as it found it "
@@ -233,6 +219,55 @@ def run(ctx):
             r.fail(fi, node, norm(node), "%s mutates the process-wide container %s: state survives from one run / render to the next"
                    % (fi.short, slot.split("clikit.", 1)[-1]))
     shared_objects_rule(ctx, "C17-R7", lambda modname: True, reference=56)
+
+    # ---------------------------------------------------------------- R8
+    r = ctx.rule("C17-R8", "OWNER", "a configured value is replaced only by its setter: in the config classes a field that has a setter is "
+                 "written elsewhere only to fill in a default while it is still None - a getter never stores what it "
+                 "derived from the configured value (a handler factory stays a factory: every run gets its own handler)", reference=3)
+    for ci in sorted([c for c in p.classes.values() if c.module.name.startswith("clikit.api.config")], key=lambda c: c.qualname):
+        setter_of = {}
+        for name, m in ci.methods.items():
+            prm = set(a for a in m.params if a != "self")
+            for n in walk_no_nested(m.node):
+                if isinstance(n, ast.Assign) and isinstance(n.value, ast.Name) and n.value.id in prm:
+                    for t in n.targets:
+                        if isinstance(t, ast.Attribute) and isinstance(t.value, ast.Name) and t.value.id == "self":
+                            setter_of.setdefault(t.attr, name)
+        for name, m in sorted(ci.methods.items()):
+            if name == "__init__":
+                continue
+            prm = set(a for a in m.params if a != "self")
+            cfg = None
+            for n in walk_no_nested(m.node):
+                if not isinstance(n, (ast.Assign, ast.AugAssign)):
+                    continue
+                tgts = n.targets if isinstance(n, ast.Assign) else [n.target]
+                for t in tgts:
+                    if not (isinstance(t, ast.Attribute) and isinstance(t.value, ast.Name) and t.value.id == "self" and t.attr in setter_of):
+                        continue
+                    v = n.value
+                    if isinstance(v, ast.Constant) or (isinstance(v, ast.Name) and v.id in prm) or any(isinstance(x, ast.Name) and x.id in prm for x in walk_no_nested(v)):
+                        continue  # a setter / enable / disable
+                    cfg = cfg or ctx.cfg(m)
+                    fld = t.attr
+                    guards = [guarded_by(cfg, cn, lambda e: isinstance(e, ast.Compare) and isinstance(e.ops[0], ast.Is) and isinstance(e.left, ast.Attribute) and e.left.attr == fld
+                                         and isinstance(e.comparators[0], ast.Constant) and e.comparators[0].value is None, polarity=True, kill_names=lambda e: set())
+                              for cn in cfg.nodes_of(n)]
+                    if guards and all(g is not None for g in guards):
+                        r.ok("%s.%s: self.%s filled in while None" % (ci.name, name, fld))
+                    else:
+                        r.fail(m, n, norm(n), "%s.%s overwrites self.%s, the value configured with %s(), by something derived from it: what was configured "
+                               "(a factory, say) is gone after the first access, so later runs of the same application share one object where a fresh application creates its own"
+                               % (ci.name, name, fld, setter_of[fld]))
+
+    # ---------------------------------------------------------------- R9
+    from .c05 import scratch_rule
+
+    r = ctx.rule("C17-R9", "RESET", "fitting cells twice gives what a fresh wrapper gives: every attribute CellWrapper.fit writes "
+                 "(directly or through its helpers) is re-initialised before its first use in that fit (same rule as C05-R1)", reference=8)
+    fit = ctx.cls("clikit.ui.components.cell_wrapper.CellWrapper").methods.get("fit")
+    ctx.require(fit is not None, "CellWrapper.fit missing")
+    scratch_rule(ctx, r, fit)
     return ctx.results
 
 
@@ -302,6 +337,30 @@ def _reset_before_use(ctx, render, attr):
     return hit
 
 
+def memo_key_rule(ctx, r, only_module=None):
+    """CACHEKEY rule (shared with C04 / C20 for the trace's snippet memo)."""
+    p = ctx.p
+    n_memo = 0
+    for ci in p.classes.values():
+        if only_module is not None and ci.module.name != only_module:
+            continue
+        for slot, val in ci.attrs.items():
+            if not isinstance(val, (ast.Dict,)) or val.keys:
+                continue
+            for m in ci.methods.values():
+                for n in walk_no_nested(m.node):
+                    if isinstance(n, ast.Assign) and len(n.targets) == 1 and isinstance(n.targets[0], ast.Subscript):
+                        tg = n.targets[0]
+                        if isinstance(tg.value, ast.Attribute) and tg.value.attr == slot and isinstance(tg.value.value, ast.Name) \
+                                and tg.value.value.id in ("self", "cls", ci.name):
+                            n_memo += 1
+                            _cachekey(ctx, r, m, n, tg)
+    if n_memo == 0:
+        r.vacuous_ok = True
+        r.note("no class-level memo dictionaries are filled any more")
+
+
+
 def _cachekey(ctx, r, m, store, tg):
     """Inputs of the memoised value must appear in the key."""
     key = tg.slice
@@ -320,6 +379,19 @@ def _cachekey(ctx, r, m, store, tg):
                     seen_defs.add(id(defs[0]))
                     todo.append(defs[0].value)
     key_txt = norm(key)
+    # attribute-level cover: a name that occurs in the key only as <name>.<attr> covers just those attributes
+    key_attrs = {}
+    todo2 = [key] + [d.value for d in walk_no_nested(m.node) if isinstance(d, ast.Assign) and id(d) in seen_defs]
+    for k in todo2:
+        for n in walk_no_nested(k):
+            if isinstance(n, ast.Name):
+                par = getattr(n, "_parent", None)
+                if isinstance(par, ast.Attribute) and par.value is n and not (isinstance(getattr(par, "_parent", None), ast.Call) and getattr(par, "_parent").func is par):
+                    key_attrs.setdefault(n.id, set())
+                    if key_attrs[n.id] is not None:
+                        key_attrs[n.id].add(par.attr)
+                else:
+                    key_attrs[n.id] = None
     # value expression, resolving one level of local definitions
     val = store.value
     inputs = {}
@@ -343,9 +415,23 @@ def _cachekey(ctx, r, m, store, tg):
                             collect(d.value, depth + 1)
                 else:
                     inputs.setdefault(n.id, n)
+                    par = getattr(n, "_parent", None)
+                    if isinstance(par, ast.Attribute) and par.value is n and not (isinstance(getattr(par, "_parent", None), ast.Call) and getattr(par, "_parent").func is par):
+                        if input_attrs.get(n.id, set()) is not None:
+                            input_attrs.setdefault(n.id, set()).add(par.attr)
+                    else:
+                        input_attrs[n.id] = None
 
+    input_attrs = {}
     collect(val)
     missing = sorted(nm for nm in inputs if nm not in key_names)
+    for nm in sorted(inputs):
+        if nm in key_names and key_attrs.get(nm) is not None:
+            used = input_attrs.get(nm)
+            if used is None:
+                missing.append(nm + " (whole object; the key holds only ." + ", .".join(sorted(key_attrs[nm])) + ")")
+            elif used - key_attrs[nm]:
+                missing.extend(nm + "." + a for a in sorted(used - key_attrs[nm]))
     desc = "%s: %s" % (m.short, norm(store.targets[0]))
     if not missing:
         r.ok(desc + " key covers " + ", ".join(sorted(inputs)))
